@@ -29,7 +29,7 @@ import ast
 import z3
 
 from .npmodel import ArrObj, TArr
-from .values import BoundMethod, BuiltinV, ClassV, ListObj, Ref, SV, T, TBool, TInt, TList, TOpt, Unsupported, _dt_cache, type_of_value
+from .values import BoundMethod, BuiltinV, ClassV, ListObj, Ref, SV, T, TBool, TInt, TList, TOpt, TReal, Unsupported, _dt_cache, type_of_value
 
 CPE = "gemseo.core.parallel_execution.callable_parallel_execution.CallableParallelExecution"
 
@@ -156,7 +156,138 @@ def clamp_slice(lo, hi, n):
     return lo_t, z3.If(hi_t > lo_t, hi_t - lo_t, 0)
 
 
+# --------------------------------------------------------------------------- complex arrays as (re, im) pairs (complex step)
+class CArrV:
+    """A complex numpy array: two real arrays of the same shape (real and imaginary parts)."""
+
+    def __init__(self, re: Ref, im: Ref):
+        self.re, self.im = re, im
+
+
+class CScalarV:
+    """A complex scalar (an element of a complex array)."""
+
+    def __init__(self, re: SV, im: SV):
+        self.re, self.im = re, im
+
+
+class CConstV:
+    """A complex constant of the source (``1j``)."""
+
+    def __init__(self, re: float, im: float):
+        self.re, self.im = re, im
+
+
+class TCArr(T):
+    def __init__(self, rank=1):
+        self.rank = rank
+        self.name = f"CArr[{rank}]"
+        self.part = TArr("f", rank)
+
+    def sort(self):
+        raise Unsupported("complex arrays cannot be stored in symbolic containers")
+
+    def fresh(self, st, hint):
+        re = self.part.fresh(st, hint + "_re")
+        shape = st.heap[re.id].shape
+        o = ArrObj("f", shape, st.fresh_const(hint + "_im_el", st.heap[re.id].elems.sort()))
+        o.ty = self.part
+        return CArrV(re, st.alloc(o))
+
+
+def complex_fun(fname, part):
+    """The two uninterpreted maps (re, im) -> re' and (re, im) -> im' of a function on complex vectors."""
+    return (z3.Function(fname + "_re", part.sort(), part.sort(), part.sort()), z3.Function(fname + "_im", part.sort(), part.sort(), part.sort()))
+
+
+def _np():
+    from .npmodel import NumpyModel
+
+    return NumpyModel()
+
+
 class C16Models:
+    # ------------------------------------------------------------------ complex arrays
+    def constant(self, ex, v):
+        if _on(ex) and isinstance(v, complex):
+            return CConstV(v.real, v.imag)
+        return NotImplemented
+
+    def call_builtin(self, ex, name, args, kwargs, lineno, node=None):
+        if _on(ex) and name == "int" and len(args) == 1 and isinstance(args[0], SV) and args[0].ty == TReal:
+            t = args[0].term  # int(float): truncation toward zero
+            if z3.is_app(t) and t.decl().kind() == z3.Z3_OP_DIV:
+                a, b = t.children()
+                if all(z3.is_app(x) and x.decl().kind() == z3.Z3_OP_TO_REAL for x in (a, b)) and z3.is_int_value(b.arg(0)) and b.arg(0).as_long() > 0:
+                    # int(m / k) for integers m and a literal k > 0: integer division rounded toward zero (stays in linear integer arithmetic)
+                    m, k = a.arg(0), b.arg(0)
+                    return SV(z3.simplify(z3.If(m >= 0, m / k, -((-m) / k))), TInt)
+            return SV(z3.simplify(z3.If(t >= 0, z3.ToInt(t), -z3.ToInt(-t))), TInt)
+        if not _on(ex) or name != "numpy.zeros":
+            return NotImplemented
+        d = kwargs.get("dtype")
+        if not (isinstance(d, BuiltinV) and d.name.rsplit(".", 1)[-1] in ("complex128", "complex")):
+            return NotImplemented
+        np_ = _np()
+        return CArrV(np_.call_builtin(ex, name, args, {}, lineno), np_.call_builtin(ex, name, args, {}, lineno))
+
+    def setitem(self, ex, cont, key, v, lineno):
+        if not isinstance(cont, CArrV):
+            return NotImplemented
+        if not isinstance(v, CArrV):
+            raise Unsupported("store of a non-complex value into a complex array")
+        np_ = _np()
+        np_.setitem(ex, cont.re, key, v.re, lineno)
+        np_.setitem(ex, cont.im, key, v.im, lineno)
+        return True
+
+    def _complex_binop(self, ex, op, a, b, lineno):
+        from .npmodel import _is_arr
+
+        np_ = _np()
+        if op == "Mult":
+            if isinstance(a, CConstV) and _is_arr(ex, b):
+                return CArrV(np_.binop(ex, op, b, a.re, lineno), np_.binop(ex, op, b, a.im, lineno))
+            for x, y in ((a, b), (b, a)):
+                if isinstance(x, CArrV) and ex.num(y) is not None:
+                    return CArrV(np_.binop(ex, op, x.re, y, lineno), np_.binop(ex, op, x.im, y, lineno))
+        if op not in ("Add", "Sub"):
+            raise Unsupported(f"operator {op} on complex values {a!r}, {b!r}")
+        if isinstance(a, CArrV) and isinstance(b, CArrV):
+            return CArrV(np_.binop(ex, op, a.re, b.re, lineno), np_.binop(ex, op, a.im, b.im, lineno))
+        if isinstance(b, CArrV) and _is_arr(ex, a):
+            # real + complex: the real part is shifted; the imaginary part is that of the complex operand (negated for a difference)
+            im = np_.call_method(ex, b.im, "np.copy", [], {}, lineno) if op == "Add" else np_.unary(ex, "neg", b.im, lineno)
+            return CArrV(np_.binop(ex, op, a, b.re, lineno), im)
+        if isinstance(a, CArrV) and _is_arr(ex, b):
+            return CArrV(np_.binop(ex, op, a.re, b, lineno), np_.call_method(ex, a.im, "np.copy", [], {}, lineno))
+        raise Unsupported(f"operator {op} on {a!r}, {b!r}")
+
+    def call_funv(self, ex, fv, args, kwargs, lineno):
+        if _on(ex) and getattr(ex.contract, "fun_output_dim", None) is not None and not (args and isinstance(args[0], CArrV)) and not fv.ty.logged \
+                and isinstance(fv.ty.ret, TArr) and fv.ty.ret.rank == 1:
+            # the contract's precondition `output-dimension-is-fixed` (forall v. dim(F(v)) == m_out) instantiated at this application: the
+            # result array carries the dimension m_out syntactically, so that shape tests between two outputs do not fork (the feasibility
+            # solver never sees facts over lambda terms)
+            st = ex.st
+            ty = fv.ty
+            f = z3.Function(ty.fname, *[t.sort() for t in ty.args], ty.ret.sort())
+            app = f(*[t.embed(st, a) for t, a in zip(ty.args, args)])
+            ex.assumed.add(f"uninterpreted:{ty.fname}")
+            r = ty.ret.project(st, app)
+            m = ex.contract.fun_output_dim
+            st.assume(ty.ret.dim(app) == m)
+            st.heap[r.id].shape = (m,)
+            return r
+        if not (args and isinstance(args[0], CArrV)):
+            return NotImplemented
+        st = ex.st
+        part = TArr("f", 1)
+        fre, fim = complex_fun(fv.ty.fname, part)
+        a = (part.embed(st, args[0].re), part.embed(st, args[0].im))
+        ex.assumed.add(f"uninterpreted:{fv.ty.fname} on complex vectors (two maps of the real and imaginary parts)")
+        return CArrV(part.project(st, fre(*a)), part.project(st, fim(*a)))
+
     # ------------------------------------------------------------------ selections
     def isinstance_(self, ex, v, cls):
         if not _is_sel(v):
@@ -189,6 +320,12 @@ class C16Models:
         return SV(z3.simplify(z3.Or(*out)), TBool)
 
     def to_iter(self, ex, v, lineno):
+        if _on(ex) and isinstance(v, Ref) and isinstance(ex.st.heap.get(v.id), ArrObj) and ex.st.heap[v.id].rank == 2:
+            # iterating a matrix yields its rows
+            from .engine import IterV
+
+            A = ex.st.heap[v.id]
+            return IterV(A.shape[0], lambda i: _np().getitem(ex, v, i if isinstance(i, SV) else SV(i, TInt), lineno))
         if not _is_sel(v):
             return NotImplemented
         from .engine import IterV, PyRaise
@@ -212,6 +349,10 @@ class C16Models:
         return SV(TSel.list_n(v.term), TInt)
 
     def getitem(self, ex, cont, key, lineno):
+        if isinstance(cont, CArrV):
+            np_ = _np()
+            re, im = np_.getitem(ex, cont.re, key, lineno), np_.getitem(ex, cont.im, key, lineno)
+            return CScalarV(re, im) if isinstance(re, SV) else CArrV(re, im)
         if not _is_sel(key):
             return NotImplemented
         st = ex.st
@@ -226,6 +367,8 @@ class C16Models:
 
     # ------------------------------------------------------------------ [f] * n
     def binop(self, ex, op, a, b, lineno, inplace=False):
+        if isinstance(a, (CArrV, CConstV)) or isinstance(b, (CArrV, CConstV)):
+            return self._complex_binop(ex, op, a, b, lineno)
         if not _on(ex) or op != "Mult":
             return NotImplemented
         if isinstance(a, tuple) and len(a) == 1 and isinstance(a[0], BoundMethod) and ex.num(b) is not None and ex.num(b)[1] == TInt:
@@ -280,7 +423,7 @@ class C16Models:
             return NotImplemented
         gen = node.generators[0]
         # only element expressions that build arrays (subscripts / arithmetic of arrays); everything else: generic model
-        if not isinstance(node.elt, (ast.Subscript, ast.BinOp)):
+        if not isinstance(node.elt, (ast.Subscript, ast.BinOp, ast.Attribute)):
             return NotImplemented
         st = ex.st
         fr = ex.frame
@@ -348,6 +491,14 @@ class C16Models:
         return ParExecV(args[0])
 
     def value_attr(self, ex, obj, attr, lineno):
+        if isinstance(obj, (CArrV, CScalarV)):
+            if attr == "imag":
+                return obj.im
+            if attr == "real":
+                return obj.re
+            if attr == "shape" and isinstance(obj, CArrV):
+                return _np().value_attr(ex, obj.re, "shape", lineno)
+            raise Unsupported(f"attribute {attr} of a complex value")
         if isinstance(obj, ParExecV) and attr == "execute":
             return BoundMethod(obj, None, "c16.execute")
         return NotImplemented
